@@ -604,7 +604,8 @@ class GenX(sc.Gen):
             return super().value(depth, in_container, hashable)
         S = sc.S
         opts = [
-            (lambda: ["shared", rng.choice(["list", "tuple"]), super(GenX, self).value(0, True), rng.randint(2, 3)], 3),
+            # (an all-numeric sequence stays inside the quantifier: integers within int64, no uint64 scalars)
+            (lambda: ["shared", rng.choice(["list", "tuple"]), self.sanitize_seq([super(GenX, self).value(0, True)])[0], rng.randint(2, 3)], 3),
             (lambda: ["shared_dict", rng.sample(DICT_KEYS_X, rng.randint(2, 3)), super(GenX, self).value(0, True)], 2),
             (lambda: ["shared_obj", rng.choice(["SA", "SB"]), rng.sample(sc.NAMES, rng.randint(2, 3)), super(GenX, self).value(max(depth - 1, 0), False)], 2),
             (lambda: [rng.choice(["list", "tuple"]), [["scalar", S(rng.choice(["a", "", None, "0"]))]] * rng.randint(2, 4)], 2),
